@@ -659,6 +659,10 @@ func (x *Exec) callFunc(s *State, fn *types.Func, call *ast.CallExpr) []*Term {
 			// determinism is assumed only for plain functions and for the read-only font tables; methods of
 			// other external types may carry hidden state (strings.Builder, time.Time ...)
 			if fn.Pkg().Path() == "time" || (sig.Recv() != nil && fn.Pkg().Path() != "github.com/tdewolff/font") {
+				if sig.Recv() != nil {
+					// ghost log: the order of calls on external stateful objects is observable (wroteSeq("@(*pkg.T).M", ...))
+					s.log = append(s.log, "@"+fn.FullName())
+				}
 				return x.havocResults(s, call)
 			}
 			// deterministic: an uninterpreted function of receiver, arguments and the heap epoch
@@ -1514,6 +1518,8 @@ var pureExternalPkgs = map[string]bool{
 	"time": true, "unicode/utf16": true, "unicode/utf8": true, "unicode": true, "strings": true, "strconv": true,
 	"math": true, "math/bits": true, "errors": true, "path/filepath": true, "image/color": true,
 	"github.com/tdewolff/font": true, "github.com/go-text/typesetting/language": true,
+	// scan converters: their methods can only reach the scanner's own cells and target image
+	"github.com/srwiley/scanx": true, "golang.org/x/image/vector": true, "golang.org/x/image/math/fixed": true,
 }
 
 // extCallPure: a function of a whitelisted external package that takes no callback (interface or function
